@@ -50,6 +50,9 @@ MIXED = {
     'F59': '=COUNTIFS(A1:A3,">"&B1)', 'F60': '=COUNTIFS(A4:A5,"x")', 'F61': '=SUMIF(A4:A5,"a?c",B4:B5)',
     'F62': '=(A1+A2)%', 'F63': '=A1/A9', 'F64': '=A99+1', 'F65': '=A99&"t"', 'F66': '=IFERROR(VLOOKUP("zz",C1:D3,2,FALSE),"none")',
     'F71': '=A4&E1', 'F72': '=CONCATENATE(E2,"|",E3)', 'F73': '=COUNTIFS(A1:A3,">"&E2)', 'F74': '=E1&E2&E3&A6&A99', 'E1': 1e20, 'E2': 1e-5, 'E3': -2.5e16,
+    # the guarded formula fails with the runtime's OWN exception (criteria range of another size than the value range)
+    'F75': '=IFERROR(SUMIFS(A1:A3,B1:B2,">0"),-1)', 'F76': '=IFERROR(COUNTIFS(A1:A3,">0",B1:B2,">0"),-2)', 'F77': '=IFERROR(AVERAGEIFS(A1:A3,B1:B2,">0"),-3)',
+    'F78': '=IFERROR(SUMIFS(A1:A3,B1:B3,">0",C1:C2,"k1"),"sizes")',
     'F67': '=INDEX(A1:A3&B1:B3,2)', 'F68': '=MIN(B1:B3)+MAX(B1:B3)', 'F69': '=TEXT(A1,"0")', 'F70': '=COUNT(1,2,"3")',
 }
 VALS = [[], [('A1', 7), ('A2', -1.25), ('A5', 'Abc'), ('A9', 2)], [('A1', 0), ('A4', ''), ('B2', 2.0), ('A7', dt.datetime(2023, 12, 31))],
@@ -105,6 +108,8 @@ def remap(v, cls):
     """map blank objects to cls's own EmptyCell"""
     if type(v).__name__ == 'EmptyCell':
         return cls.EmptyCell()
+    if v is RAISE_OWN:
+        return _raiser(cls.ExcelInPythonException('own'))
     if isinstance(v, list):
         return [remap(i, cls) for i in v]
     if isinstance(v, tuple):
@@ -134,6 +139,35 @@ DATES = [dt.datetime(2024, 1, 31), dt.datetime(2024, 2, 29), dt.datetime(2023, 1
 # the edges of the calendar, for the functions that move by months (not for NETWORKDAYS: eight thousand years of days)
 EDGE_DATES = [dt.datetime(9999, 12, 1), dt.datetime(9999, 11, 30), dt.datetime(9999, 12, 31), dt.datetime(9999, 1, 31), dt.datetime(1, 1, 15), dt.datetime(1, 2, 28), dt.datetime(1900, 1, 31)]
 SPAN = [dt.datetime(2024, 1, 1) + dt.timedelta(days=d) for d in (0, 4, 5, 6, 7, 13, 30, 59, 60, 61, 90)]
+
+
+class _HostError(Exception):
+    pass
+
+
+class _RaiseOwn:
+    """replaced per class by a function that raises THAT class's ExcelInPythonException (remap)"""
+
+    def __repr__(self):
+        return 'RAISE_OWN'
+
+
+RAISE_OWN = _RaiseOwn()
+
+
+def _raiser(exc):
+    def f():
+        raise exc
+    f.__qualname__ = 'raise_' + type(exc).__name__
+    return f
+
+
+# what a guarded expression can fail with: every family of built-in exceptions, decimal's, a plain Exception, somebody's subclass of it, and
+# the runtime's own exception class
+RAISERS = [_raiser(e) for e in (ZeroDivisionError('d'), ValueError('v'), TypeError('t'), KeyError('k'), IndexError('i'), AttributeError('a'), OverflowError('o'),
+                                __import__('decimal').InvalidOperation(), Exception('plain'), RuntimeError('r'), _HostError('h'), StopIteration(), AssertionError('as'),
+                                OSError('os'), UnicodeDecodeError('utf-8', b'x', 0, 1, 'u'), NotImplementedError('n'), NameError('nm'), LookupError('l'), ArithmeticError('ar'),
+                                BufferError('b'), EOFError('e'), MemoryError('m'))] + [RAISE_OWN]
 
 
 def holidays(rng):
@@ -177,7 +211,8 @@ def synth(name, rng, n):
         '_count': lambda: ([[P(scal)], [P(scal)]], [P(scal), '3'], P([[P(scal)], [P(scal), [1, 2, 'x']], [[4, 5.5]], [COL], [P(scal), P(scal)], [[1, [2, [3]]]]])), '_count_blank': lambda: ([P(scal + ['#N/A']) for _ in range(4)],),
         '_and': lambda: ([P(scal) for _ in range(3)],), '_or': lambda: ([P(scal) for _ in range(3)],),
         '_ifs': lambda: ([P([True, False, 0, 1]), P(scal), P([True, False]), P(scal + ['#N/A'])],),
-        '_iferror': lambda: (P([lambda: 1, lambda: 1 / 0, lambda: '#N/A', lambda: 'x']), P([7, 'fb'])),
+        '_iferror': lambda: (P([lambda: 1, lambda: 1 / 0, lambda: '#N/A', lambda: 'x', lambda: B, lambda: None, lambda: float('nan'), lambda: float('inf'), lambda: ' #N/A'] + RAISERS),
+                             P([lambda: 7, lambda: 'fb', lambda: B] + RAISERS[:3])),
         '_normalize_float_number': lambda: (P(NUMS + [0.1 + 0.2, 1 / 3]),), '_regexp': lambda: (P(['a?b', 'a*', '??', '~?x', 'x[1]', 'a~*b', '*', 'a.b', '(a|b)', '~~']),),
         '_flatten_list': lambda: (P([[1, [2, [3, B]]], [], [[['x']]], [COL, TABLE]]),), '_only_numeric_list': lambda: ([P(scal) for _ in range(5)], P([False, True])),
         '_only_bool_list': lambda: ([P(scal) for _ in range(5)],), '_only_datetime_list': lambda: ([P(scal) for _ in range(5)],),
